@@ -8,7 +8,7 @@ TRUSTED_BASE = [
     "pen-and-paper induction step: closure of the canonical state family + one symbolic step => all streams/histories (DESIGN.md section 1)",
 ]
 
-COMMON_OUTSIDE = "every harness loop has a concrete trip count; the global unwind bound is 300 with unwinding assertions on, so a loop inside the real code (e.g. a table search introduced by a refactoring) is either fully unrolled or reported as inconclusive, never silently truncated; outside the claim: release-profile codegen beyond native replay, non-host targets, timing, stack usage"
+COMMON_OUTSIDE = "every harness loop has a concrete trip count <= 13 (C12: number of keys); harnesses run with unwind bound 24 and unwinding assertions on, and a harness whose only failures are unwinding assertions is re-run with bound 300, so a loop inside the real code (e.g. a table search introduced by a refactoring) is either fully unrolled or reported as inconclusive, never silently truncated; outside the claim: release-profile codegen beyond native replay, non-host targets, timing, stack usage"
 
 P = {}
 
